@@ -1,0 +1,246 @@
+//go:build verif
+
+package swap
+
+import (
+	"context"
+	"fmt"
+	"reflect"
+	"sort"
+	"sync"
+	"time"
+)
+
+// This file is only compiled with the `verif` build tag. It exposes read-only
+// views and thin wrappers for the verification harness in /verif. It adds no
+// behaviour to the production build.
+
+// VerifStateFact is one row of a role's state table as the running code holds it.
+type VerifStateFact struct {
+	State         string
+	Actions       []string          // action chain, outermost wrapper first
+	Events        map[string]string // event -> next state
+	FailOnRecover bool
+}
+
+// VerifRoleTable is a role's complete table.
+type VerifRoleTable struct {
+	Role   string
+	States []VerifStateFact
+}
+
+func verifActionChain(a Action) []string {
+	var out []string
+	for a != nil {
+		v := reflect.ValueOf(a)
+		t := v.Type()
+		for t.Kind() == reflect.Ptr {
+			if v.IsNil() {
+				out = append(out, "<nil "+t.String()+">")
+				return out
+			}
+			v = v.Elem()
+			t = v.Type()
+		}
+		out = append(out, t.Name())
+		var next Action
+		if t.Kind() == reflect.Struct {
+			for i := 0; i < t.NumField(); i++ {
+				if t.Field(i).Name == "next" {
+					f := v.Field(i)
+					if !f.IsNil() {
+						// unexported field: rebuild an addressable copy
+						cp := reflect.New(t).Elem()
+						cp.Set(v)
+						f = cp.Field(i)
+						next = reflect.NewAt(f.Type(), f.Addr().UnsafePointer()).Elem().Interface().(Action)
+					}
+				}
+			}
+		}
+		a = next
+	}
+	return out
+}
+
+func verifTable(role string, st States) VerifRoleTable {
+	rt := VerifRoleTable{Role: role}
+	var names []string
+	for k := range st {
+		names = append(names, string(k))
+	}
+	sort.Strings(names)
+	for _, n := range names {
+		s := st[StateType(n)]
+		f := VerifStateFact{State: n, Events: map[string]string{}, FailOnRecover: s.FailOnrecover}
+		if s.Action != nil {
+			f.Actions = verifActionChain(s.Action)
+		}
+		for e, nx := range s.Events {
+			f.Events[string(e)] = string(nx)
+		}
+		rt.States = append(rt.States, f)
+	}
+	return rt
+}
+
+// VerifTables returns the four state tables of the running code.
+func VerifTables() []VerifRoleTable {
+	return []VerifRoleTable{
+		verifTable("SwapOutSender", getSwapOutSenderStates()),
+		verifTable("SwapOutReceiver", getSwapOutReceiverStates()),
+		verifTable("SwapInSender", getSwapInSenderStates()),
+		verifTable("SwapInReceiver", getSwapInReceiverStates()),
+	}
+}
+
+// VerifIsFinished evaluates IsFinished for a state name.
+func VerifIsFinished(state string) bool {
+	return (&SwapStateMachine{Current: StateType(state)}).IsFinished()
+}
+
+// VerifTimelockPolicy is the exported view of timelockPolicy.
+type VerifTimelockPolicy struct {
+	CSV                  uint32
+	PaymentWindow        uint32
+	InvoiceFinalCLTV     uint64
+	MaxTotalCLTVDelta    uint32
+	AllowNewClaimPayment bool
+}
+
+func verifDataFor(chain string, version uint8) *SwapData {
+	req := &SwapOutRequestMessage{ProtocolVersion: version}
+	switch chain {
+	case btc_chain:
+		req.Network = "regtest"
+	case l_btc_chain:
+		req.Asset = "00"
+	default:
+		// neither asset nor network: GetChain() returns ""
+	}
+	return &SwapData{SwapOutRequest: req}
+}
+
+// VerifGetTimelockPolicy evaluates getTimelockPolicy for (chain, version).
+func VerifGetTimelockPolicy(chain string, version uint8) (VerifTimelockPolicy, error) {
+	p, err := verifDataFor(chain, version).getTimelockPolicy()
+	return VerifTimelockPolicy(p), err
+}
+
+// VerifCheckPaymentWindow evaluates checkPaymentWindow.
+func VerifCheckPaymentWindow(set bool, start, current, window uint32) error {
+	d := &SwapData{StartingBlockHeight: start, StartingBlockHeightSet: set}
+	return checkPaymentWindow(d, current, timelockPolicy{PaymentWindow: window})
+}
+
+// VerifValidateClaimInvoice evaluates validateClaimInvoice.
+func VerifValidateClaimInvoice(msat uint64, cltv int64, claimSat uint64, maxFinal uint64) error {
+	return validateClaimInvoice(msat, cltv, claimSat, timelockPolicy{InvoiceFinalCLTV: maxFinal})
+}
+
+// VerifInvoiceParams returns (expiry, cltv) the maker puts into the claim invoice.
+func VerifInvoiceParams(chain string, version uint8) (uint64, uint64) {
+	d := verifDataFor(chain, version)
+	return d.GetInvoiceExpiry(), d.GetInvoiceCltv()
+}
+
+// VerifChains returns the chain name constants.
+func VerifChains() (string, string) { return btc_chain, l_btc_chain }
+
+// VerifValidateScid evaluates validateScid.
+func VerifValidateScid(s string) error { return validateScid(s) }
+
+// ---------------------------------------------------------------------------
+// Service construction with a manually fired timeout service.
+
+// VerifTimer is a timeout registration recorded by VerifTimeouts.
+type VerifTimer struct {
+	Id       string
+	Duration time.Duration
+	ctx      context.Context
+}
+
+// VerifTimeouts is a TimeOutService that records registrations and fires them
+// only when asked.
+type VerifTimeouts struct {
+	sync.Mutex
+	Timers []VerifTimer
+	svc    *SwapService
+}
+
+func (t *VerifTimeouts) addNewTimeOut(ctx context.Context, d time.Duration, id string) {
+	t.Lock()
+	defer t.Unlock()
+	t.Timers = append(t.Timers, VerifTimer{Id: id, Duration: d, ctx: ctx})
+}
+
+// Fire runs the service's timeout callback for the swap id if a non-cancelled
+// registration exists; it reports whether a callback ran.
+func (t *VerifTimeouts) Fire(id string) bool {
+	t.Lock()
+	idx := -1
+	for i, tm := range t.Timers {
+		if tm.Id == id && tm.ctx.Err() == nil {
+			idx = i
+			break
+		}
+	}
+	if idx >= 0 {
+		t.Timers = append(t.Timers[:idx], t.Timers[idx+1:]...)
+	}
+	t.Unlock()
+	if idx < 0 {
+		return false
+	}
+	t.svc.createTimeoutCallback(id)()
+	return true
+}
+
+// Armed lists the ids with a live registration.
+func (t *VerifTimeouts) Armed() []string {
+	t.Lock()
+	defer t.Unlock()
+	var out []string
+	for _, tm := range t.Timers {
+		if tm.ctx.Err() == nil {
+			out = append(out, fmt.Sprintf("%s/%d", tm.Id, int64(tm.Duration/time.Second)))
+		}
+	}
+	sort.Strings(out)
+	return out
+}
+
+// VerifStart is Start() with the timeout service replaced by a manual one.
+func (s *SwapService) VerifStart() (*VerifTimeouts, error) {
+	if err := s.Start(); err != nil {
+		return nil, err
+	}
+	t := &VerifTimeouts{svc: s}
+	s.swapServices.toService = t
+	return t, nil
+}
+
+// VerifActiveSwaps returns id -> (current state, scid) for the active map.
+func (s *SwapService) VerifActiveSwaps() map[string][2]string {
+	s.RLock()
+	defer s.RUnlock()
+	out := map[string][2]string{}
+	for id, sw := range s.activeSwaps {
+		scid := ""
+		if sw.Data != nil {
+			scid = sw.Data.GetScid()
+		}
+		out[id] = [2]string{string(sw.Current), scid}
+	}
+	return out
+}
+
+// VerifLockSwap calls lockSwap with a bare state machine carrying the scid.
+func (s *SwapService) VerifLockSwap(swapId, channelId string) error {
+	id, err := ParseSwapIdFromString(swapId)
+	if err != nil {
+		return err
+	}
+	fsm := &SwapStateMachine{SwapId: id, Data: &SwapData{SwapOutRequest: &SwapOutRequestMessage{SwapId: id, Scid: channelId}}}
+	return s.lockSwap(swapId, channelId, fsm)
+}
